@@ -33,11 +33,15 @@ def S(x):
 
 
 def imec_meta_text(kind, sites, gains=None, band="ap", nsync=1, ns=None, fs_hz="30000", geom_map=False,
-                   file_size=None, extra=None, n_saved=None, imro_extra_entries=0):
+                   file_size=None, extra=None, n_saved=None, imro_extra_entries=0, rng=None, maxint=None):
     """
     sites: list of (shank, col_or_x, row_or_y) (numbers or SInt); gains: list of (ap, lf) per site (NP1 only)
     """
-    P = PROBE_TYPES[kind]
+    P = dict(PROBE_TYPES[kind])
+    if rng is not None:
+        P["rng"] = rng
+    if maxint is not None:
+        P["maxint"] = maxint
     n = len(sites)
     nsaved = n + nsync if n_saved is None else n_saved
     lines = []
